@@ -257,22 +257,30 @@ Record pst := mkP {
   p_ts : option Z;                             (* p.ts: timestamp of the last series/histogram read *)
   p_tmpl : labels; p_tmp : temph; p_ex : exbuf; p_tmpst : Z;
   p_lastname : string; p_lasthash : labels;
-  p_oom : bool                                 (* left the modelled domain (non-finite count / Go panic) *)
+  p_oom : bool;                                (* left the modelled domain (non-finite count / Go panic) *)
+  p_tmpts : option Z;                          (* repaired code only: timestamp of the last collated series *)
+  p_curex : list exem                          (* repaired code only: the current collated series' exemplars
+                                                  as stored in tempExemplars *)
 }.
-Definition p_init : pst := mkP SStart (-1) EmptyString None [] th_empty eb_empty 0 EmptyString [] false.
-
-Record cfg := mkCfg { keep_classic : bool; parse_st : bool; ex_partial : bool }.
+Definition p_init : pst := mkP SStart (-1) EmptyString None [] th_empty eb_empty 0 EmptyString [] false None [].
 
 Definition set_state (p : pst) (s : cstate) : pst :=
-  mkP s (p_typ p) (p_bname p) (p_ts p) (p_tmpl p) (p_tmp p) (p_ex p) (p_tmpst p) (p_lastname p) (p_lasthash p) (p_oom p).
+  mkP s (p_typ p) (p_bname p) (p_ts p) (p_tmpl p) (p_tmp p) (p_ex p) (p_tmpst p) (p_lastname p) (p_lasthash p) (p_oom p) (p_tmpts p) (p_curex p).
 
 Definition different_metric (p : pst) (l : labels) : bool :=
   if negb (p_typ p =? T_HISTOGRAM) then true
   else if negb (String.eqb (p_lastname p) (snd (base_name (lget l NAME)))) then true
   else negb (labels_eqb (p_lasthash p) (without l [LE])).
 
+(* [fix_ts], [fix_keepex]: the repairs proposed in notes/C36_fix.md (false = the code as found):
+   fix_ts      the converted histogram carries the timestamp of its last collated series, kept
+               by value, instead of whatever p.ts points to when it is emitted;
+   fix_keepex  a kept classic series still reports its exemplars (served from tempExemplars). *)
+Record cfg := mkCfg { keep_classic : bool; parse_st : bool; ex_partial : bool;
+                      fix_ts : bool; fix_keepex : bool }.
+
 (* processNHCB: (converted?, state afterwards, the histogram entry to emit) *)
-Definition process_nhcb (p : pst) : bool * pst * list oentry :=
+Definition process_nhcb (c : cfg) (p : pst) : bool * pst * list oentry :=
   match p_state p with
   | SCollecting =>
       match convert (p_tmp p) with
@@ -280,13 +288,13 @@ Definition process_nhcb (p : pst) : bool * pst * list oentry :=
           if validate n then
             (true,
              mkP SStart (p_typ p) (p_bname p) (p_ts p) (p_tmpl p) th_empty
-                 (mkEB (eb_arr (p_ex p)) 0 0) 0 (p_lastname p) (p_lasthash p) (p_oom p),
-             [ONhcb (mkS (p_tmpl p) (p_ts p) (p_tmpst p) (firstn (eb_cnt (p_ex p)) (eb_arr (p_ex p)))) n])
+                 (mkEB (eb_arr (p_ex p)) 0 0) 0 (p_lastname p) (p_lasthash p) (p_oom p) (p_tmpts p) (p_curex p),
+             [ONhcb (mkS (p_tmpl p) (if fix_ts c then p_tmpts p else p_ts p) (p_tmpst p) (firstn (eb_cnt (p_ex p)) (eb_arr (p_ex p)))) n])
           else (false, p, [])            (* `return false` before anything is reset *)
       | None =>
           (false,
            mkP SStart (p_typ p) (p_bname p) (p_ts p) (p_tmpl p) th_empty
-               (mkEB (eb_arr (p_ex p)) (eb_len (p_ex p)) 0) 0 (p_lastname p) (p_lasthash p) (p_oom p),
+               (mkEB (eb_arr (p_ex p)) (eb_len (p_ex p)) 0) 0 (p_lastname p) (p_lasthash p) (p_oom p) (p_tmpts p) (p_curex p),
            [])
       end
   | _ => (false, p, [])
@@ -299,7 +307,7 @@ Definition process_classic (c : cfg) (p : pst) (s : sample) (v : num) (name : st
   let p1 := match p_state p with
             | SCollecting => p
             | _ => mkP SCollecting (p_typ p) (p_bname p) (p_ts p) (metric_base (s_lset s) name) (p_tmp p)
-                       (p_ex p) (if parse_st c then s_st s else 0) name (without (s_lset s) [LE]) (p_oom p)
+                       (p_ex p) (if parse_st c then s_st s else 0) name (without (s_lset s) [LE]) (p_oom p) (p_tmpts p) (p_curex p)
             end in
   let ex := store_exemplars (ex_partial c) (p_ex p1) (s_ex s) in
   let '(tmp, oom) :=
@@ -313,7 +321,8 @@ Definition process_classic (c : cfg) (p : pst) (s : sample) (v : num) (name : st
     | _, _ => (p_tmp p1, true)
     end in
   mkP (p_state p1) (p_typ p1) (p_bname p1) (p_ts p1) (p_tmpl p1) tmp ex (p_tmpst p1)
-      (p_lastname p1) (p_lasthash p1) (p_oom p1 || oom).
+      (p_lastname p1) (p_lasthash p1) (p_oom p1 || oom) (p_ts p1)
+      (firstn (eb_cnt ex - eb_cnt (p_ex p1)) (skipn (eb_cnt (p_ex p1)) (eb_arr ex))).
 
 (* strconv.ParseFloat on the le label value is an oracle, tabulated by the harness *)
 Section WithParse.
@@ -344,14 +353,14 @@ Definition handle_classic (c : cfg) (p : pst) (s : sample) (v : num) : bool * ps
 Definition out_series (c : cfg) (p : pst) (collected : bool) (s : sample) (v : num) : oentry :=
   OSeries (mkS (s_lset s) (s_ts s)
                (match p_state p with SCollecting => p_tmpst p | _ => s_st s end)
-               (if collected then [] else s_ex s)) v.
+               (if collected then (if fix_keepex c then p_curex p else []) else s_ex s)) v.
 
 Definition emit_series (c : cfg) (r : bool * pst) (s : sample) (v : num) : pst * list oentry :=
   let '(isn, p) := r in
   (p, if isn && negb (keep_classic c) then [] else [out_series c p isn s v]).
 
 Definition set_ts (p : pst) (t : option Z) : pst :=
-  mkP (p_state p) (p_typ p) (p_bname p) t (p_tmpl p) (p_tmp p) (p_ex p) (p_tmpst p) (p_lastname p) (p_lasthash p) (p_oom p).
+  mkP (p_state p) (p_typ p) (p_bname p) t (p_tmpl p) (p_tmp p) (p_ex p) (p_tmpst p) (p_lastname p) (p_lasthash p) (p_oom p) (p_tmpts p) (p_curex p).
 
 (* one entry of the wrapped parser through Next() (and, if a converted histogram is inserted,
    the following Next() that re-handles the cached entry) *)
@@ -362,7 +371,7 @@ Definition step (c : cfg) (p : pst) (e : bentry) : pst * list oentry :=
       match p_state p with
       | SCollecting =>
           if different_metric p (s_lset s) then
-            let '(_, p1, fl) := process_nhcb p in
+            let '(_, p1, fl) := process_nhcb c p in
             let '(p2, out) := emit_series c (handle_classic c p1 s v) s v in
             (p2, fl ++ out)
           else emit_series c (handle_classic c p s v) s v
@@ -375,15 +384,15 @@ Definition step (c : cfg) (p : pst) (e : bentry) : pst * list oentry :=
   | BHist s hid =>
       (* state = inhibiting first, so the processNHCB() below it never converts *)
       (mkP SInhibiting (p_typ p) (p_bname p) (s_ts s) (p_tmpl p) (p_tmp p) (p_ex p) (p_tmpst p)
-           (lget (s_lset s) NAME) (without (s_lset s) []) (p_oom p),
+           (lget (s_lset s) NAME) (without (s_lset s) []) (p_oom p) (p_tmpts p) (p_curex p),
        [OHist s hid])
   | BType name typ =>
       let p0 := mkP (p_state p) typ name (p_ts p) (p_tmpl p) (p_tmp p) (p_ex p) (p_tmpst p)
-                    (p_lastname p) (p_lasthash p) (p_oom p) in
-      let '(_, p1, fl) := process_nhcb p0 in
+                    (p_lastname p) (p_lasthash p) (p_oom p) (p_tmpts p) (p_curex p) in
+      let '(_, p1, fl) := process_nhcb c p0 in
       (p1, fl ++ [OType name typ])
   | BOther k a b =>
-      let '(_, p1, fl) := process_nhcb p in
+      let '(_, p1, fl) := process_nhcb c p in
       (p1, fl ++ [OOther k a b])
   end.
 
@@ -399,6 +408,6 @@ Fixpoint run_from (c : cfg) (p : pst) (es : list bentry) : pst * list oentry :=
    is attempted) or another error (returned at once, nothing flushed) *)
 Definition run (c : cfg) (es : list bentry) (eof : bool) : list oentry * bool :=
   let '(p, out) := run_from c p_init es in
-  (if eof then out ++ snd (process_nhcb p) else out, p_oom p).
+  (if eof then out ++ snd (process_nhcb c p) else out, p_oom p).
 
 End WithParse.
